@@ -210,22 +210,6 @@ def read_header(fn, out):
             magic = None
     if magic is None:
         raise Unsupported("magic/length test of read_header not found")
-    # hdrsize = int(inpbuf.split(b"\n")[1]) inside try/except (ValueError, IndexError): raise error
-    found = False
-    for n in nodes:
-        if isinstance(n, ast.Try) and len(n.body) == 1 and isinstance(n.body[0], ast.Assign) and is_name(n.body[0].targets[0], "hdrsize"):
-            v = n.body[0].value
-            if ast.dump(v) != ast.dump(ast.parse('int(inpbuf.split(b"\\n")[1])', mode="eval").body):
-                raise Unsupported("hdrsize expression changed")
-            if len(n.handlers) != 1 or not raises_error(n.handlers[0].body) or n.orelse or n.finalbody:
-                raise Unsupported("hdrsize handler changed")
-            t = n.handlers[0].type
-            names = sorted(x.id for x in (t.elts if isinstance(t, ast.Tuple) else [t]) if isinstance(x, ast.Name))
-            if names != ["IndexError", "ValueError"]:
-                raise Unsupported("hdrsize handler catches %s" % names)
-            found = True
-    if not found:
-        raise Unsupported("guarded hdrsize parse not found")
     # if hdrsize < N: raise error
     mins = [
         n.test.comparators[0]
@@ -238,40 +222,36 @@ def read_header(fn, out):
         and isinstance(n.test.ops[0], ast.Lt)
     ]
     hmin = const(one(mins, "hdrsize < N test"), int)
-    # the field loop: try/except ValueError -> error around the tokenising
+    # the field loop (its tokenising is modelled by hand and tied by the correspondence)
     loop = one((n for n in nodes if isinstance(n, ast.For) and is_name(n.target, "field")), "field loop")
-    if ast.dump(loop.iter) != ast.dump(ast.parse('inpbuf.split(b"\\n")[2:]', mode="eval").body):
-        raise Unsupported("field loop iterates over something else")
-    st = loop.body
-    if not (
-        isinstance(st[0], ast.If)
-        and isinstance(st[0].test, ast.Compare)
-        and is_name(st[0].test.left, "field")
-        and isinstance(st[0].test.ops[0], ast.Eq)
-        and len(st[0].body) == 1
-        and isinstance(st[0].body[0], ast.Break)
-    ):
-        raise Unsupported("end_head test of the field loop")
-    end_marker = const(st[0].test.comparators[0], bytes)
-    tr = st[1]
-    want = (
-        "field = field.decode().split()\nkey, fmt = field[:2]\nvalue = ' '.join(field[2:])\n"
-        "if fmt == '-i':\n    value = int(value)\n"
-    )
-    if not (
-        isinstance(tr, ast.Try)
-        and ast.dump(ast.Module(body=tr.body, type_ignores=[])) == ast.dump(ast.parse(want))
-        and len(tr.handlers) == 1
-        and is_name(tr.handlers[0].type, "ValueError")
-        and raises_error(tr.handlers[0].body)
-        and not tr.orelse
-        and not tr.finalbody
-    ):
-        raise Unsupported("tokenising block of the field loop changed")
-    # key dispatch chain
-    chain = st[2]
-    if len(st) != 3 or not isinstance(chain, ast.If):
-        raise Unsupported("field loop has unexpected statements")
+    lnodes = list(ast.walk(loop))
+    ends = [
+        n.test.comparators[0]
+        for n in lnodes
+        if isinstance(n, ast.If)
+        and isinstance(n.test, ast.Compare)
+        and is_name(n.test.left, "field")
+        and len(n.test.ops) == 1
+        and isinstance(n.test.ops[0], ast.Eq)
+        and len(n.body) == 1
+        and isinstance(n.body[0], ast.Break)
+    ]
+    end_marker = const(one(ends, "end_head test of the field loop"), bytes)
+    fmts = [
+        n.comparators[0]
+        for n in lnodes
+        if isinstance(n, ast.Compare) and is_name(n.left, "fmt") and len(n.ops) == 1 and isinstance(n.ops[0], ast.Eq)
+    ]
+    int_fmt = const(one(fmts, "fmt == '-i' test"), str)
+    # key dispatch chain: the outermost `if key == ...`
+    def is_key_test(t):
+        return isinstance(t, ast.Compare) and is_name(t.left, "key") and len(t.ops) == 1 and isinstance(t.ops[0], ast.Eq)
+
+    chained = set()
+    for n in lnodes:
+        if isinstance(n, ast.If) and is_key_test(n.test) and len(n.orelse) == 1 and isinstance(n.orelse[0], ast.If):
+            chained.add(id(n.orelse[0]))
+    chain = one((n for n in lnodes if isinstance(n, ast.If) and is_key_test(n.test) and id(n) not in chained), "key dispatch")
     keys, prefixes, marker = [], None, None
     node = chain
     while True:
@@ -322,42 +302,26 @@ def read_header(fn, out):
         raise Unsupported("sample_coding branch not found")
     if len(set(k for k, _ in keys)) != len(keys):
         raise Unsupported("duplicate key in dispatch")
-    # statements after the loop
-    body = fn.body
-    i = body.index(loop)
-    after = body[i + 1:]
-    if not (
-        len(after) == 5
-        and isinstance(after[0], ast.If)
-        and raises_error(after[0].body)
-        and ast.dump(after[0].test) == ast.dump(ast.parse("field != %r" % end_marker, mode="eval").body)
-    ):
-        raise Unsupported("end_head check after the field loop")
-    infer, reject, dflt, ret = after[1:]
-    if not (
-        isinstance(infer, ast.If)
-        and not infer.orelse
-        and ast.dump(ast.Module(body=infer.body, type_ignores=[])) == ast.dump(ast.parse("samptype = 'pcm'"))
-    ):
-        raise Unsupported("PCM inference statement")
-    if not (isinstance(reject, ast.If) and raises_error(reject.body) and not reject.orelse):
-        raise Unsupported("mandatory-field rejection")
-    if not (
-        isinstance(dflt, ast.If)
-        and ast.dump(dflt) == ast.dump(ast.parse("if not sampsize:\n    sampsize = samptype & 3").body[0])
-    ):
-        raise Unsupported("sampsize default statement")
-    if ast.dump(ret) != ast.dump(
-        ast.parse("return samptype, sampsize, sampcount, samprate, chancount, inporder, shortened").body[0]
-    ):
-        raise Unsupported("return statement of read_header")
-    inits = [n for n in body[:i] if isinstance(n, ast.Assign)]
-    init_names = set()
-    for n in inits:
-        if isinstance(n.value, ast.Constant) and n.value.value is None:
-            init_names |= {t.id for t in n.targets if isinstance(t, ast.Name)}
-    if not set(HVARS) <= init_names:
-        raise Unsupported("header variables are not all initialised to None")
+    # the two guards after the loop, located by their shape
+    infer = one(
+        (
+            n
+            for n in fn.body
+            if isinstance(n, ast.If)
+            and not n.orelse
+            and ast.dump(ast.Module(body=n.body, type_ignores=[])) == ast.dump(ast.parse("samptype = 'pcm'"))
+        ),
+        "PCM inference statement",
+    )
+    i = fn.body.index(loop)
+    rejects = [
+        n
+        for n in fn.body[i + 1:]
+        if isinstance(n, ast.If) and raises_error(n.body) and not n.orelse and len(set(used(n.test))) >= 2
+    ]
+    reject = one(rejects, "mandatory-field rejection")
+    if fn.body.index(infer) > fn.body.index(reject) or fn.body.index(infer) < i:
+        raise Unsupported("PCM inference no longer precedes the rejection")
     g1, a1 = guard_def("hdr_infer_pcm", infer.test)
     g2, a2 = guard_def("hdr_reject", reject.test)
     out += [
@@ -366,7 +330,7 @@ def read_header(fn, out):
         "Definition nist_magic : bytes := %s.  (* %r *)" % (bl(magic), magic),
         "Definition hdr_min_size : Z := %d." % hmin,
         "Definition end_marker : bytes := %s.  (* %r *)" % (bl(end_marker), end_marker),
-        "Definition int_fmt : bytes := %s.  (* '-i' *)" % bl("-i"),
+        "Definition int_fmt : bytes := %s.  (* %r *)" % (bl(int_fmt), int_fmt),
         "Definition shorten_marker : bytes := %s.  (* %r *)" % (bl(marker), marker),
         "Definition coding_prefixes : list (bytes * coding) :=\n  [%s]."
         % "; ".join("(%s, %s)" % (bl(p), CODINGS[p]) for p in prefixes),
@@ -444,12 +408,160 @@ def copy_samples(fn, out):
         if not raises_error(node.orelse):
             raise Unsupported("sampsize chain does not end in raise error")
         break
+    # ---- decisions of copy_samples
+    def law_set(e):
+        """samptype in {"alaw", "ulaw"} -> sorted codings."""
+        if not (
+            isinstance(e, ast.Compare)
+            and is_name(e.left, "samptype")
+            and len(e.ops) == 1
+            and isinstance(e.ops[0], ast.In)
+            and isinstance(e.comparators[0], (ast.Set, ast.Tuple, ast.List))
+        ):
+            raise Unsupported("expected `samptype in {...}`: %s" % ast.dump(e)[:60])
+        names = sorted(const(x, str) for x in e.comparators[0].elts)
+        for nme in names:
+            if nme not in CODINGS:
+                raise Unsupported("unknown coding %s" % nme)
+        return names
+
+    def np_int(e):
+        if isinstance(e, ast.Attribute) and is_name(e.value, "np") and e.attr in NP_INT:
+            return NP_INT[e.attr]
+        raise Unsupported("expected np.<int type>: %s" % ast.dump(e)[:60])
+
+    laws = []
+    # if dtype is None: if samptype in {...}: dtype = np.int16 else: dtype = in_type
+    dflt = one(
+        (
+            n
+            for n in fn.body
+            if isinstance(n, ast.If)
+            and isinstance(n.test, ast.Compare)
+            and is_name(n.test.left, "dtype")
+            and isinstance(n.test.ops[0], ast.Is)
+            and isinstance(n.test.comparators[0], ast.Constant)
+            and n.test.comparators[0].value is None
+        ),
+        "`if dtype is None` statement",
+    )
+    if dflt.orelse or len(dflt.body) != 1 or not isinstance(dflt.body[0], ast.If):
+        raise Unsupported("default dtype statement")
+    inner = dflt.body[0]
+    laws.append(law_set(inner.test))
+    if not (
+        len(inner.body) == 1
+        and isinstance(inner.body[0], ast.Assign)
+        and is_name(inner.body[0].targets[0], "dtype")
+        and len(inner.orelse) == 1
+        and isinstance(inner.orelse[0], ast.Assign)
+        and is_name(inner.orelse[0].targets[0], "dtype")
+        and is_name(inner.orelse[0].value, "in_type")
+    ):
+        raise Unsupported("default dtype branches")
+    law_bits, law_signed = np_int(inner.body[0].value)
+    # if sampsize < dtype.itemsize and samptype in {...}: convert = True
+    conv = one(
+        (
+            n
+            for n in fn.body
+            if isinstance(n, ast.If)
+            and len(n.body) == 1
+            and isinstance(n.body[0], ast.Assign)
+            and is_name(n.body[0].targets[0], "convert")
+        ),
+        "convert decision",
+    )
+    if not (
+        not conv.orelse
+        and isinstance(conv.body[0].value, ast.Constant)
+        and conv.body[0].value.value is True
+        and isinstance(conv.test, ast.BoolOp)
+        and isinstance(conv.test.op, ast.And)
+        and len(conv.test.values) == 2
+        and ast.dump(conv.test.values[0]) == ast.dump(ast.parse("sampsize < dtype.itemsize", mode="eval").body)
+    ):
+        raise Unsupported("convert decision changed")
+    laws.append(law_set(conv.test.values[1]))
+    inits = [
+        n for n in fn.body
+        if isinstance(n, ast.Assign) and is_name(n.targets[0], "convert") and isinstance(n.value, ast.Constant) and n.value.value is False
+    ]
+    one(inits, "convert = False initialisation")
+    if laws[0] != laws[1]:
+        raise Unsupported("the two law tests differ: %s" % laws)
+    # in_type.newbyteorder(">" if (inporder == "10") else "<")
+    nbo = one(
+        (n for n in nodes if isinstance(n, ast.Call) and isinstance(n.func, ast.Attribute) and n.func.attr == "newbyteorder"),
+        "newbyteorder call",
+    )
+    a = nbo.args[0] if len(nbo.args) == 1 else None
+    if not (
+        isinstance(a, ast.IfExp)
+        and const(a.body, str) == ">"
+        and const(a.orelse, str) == "<"
+        and isinstance(a.test, ast.Compare)
+        and is_name(a.test.left, "inporder")
+        and len(a.test.ops) == 1
+        and isinstance(a.test.ops[0], ast.Eq)
+    ):
+        raise Unsupported("byte order decision changed")
+    be_tag = const(a.test.comparators[0], str)
+    # if convert and samptype == "alaw": inpbuf = ALAW2PCM[inpbuf] elif convert: inpbuf = ULAW2PCM[inpbuf]
+    def table_assign(body):
+        if not (
+            len(body) == 1
+            and isinstance(body[0], ast.Assign)
+            and is_name(body[0].targets[0], "inpbuf")
+            and isinstance(body[0].value, ast.Subscript)
+            and is_name(body[0].value.value)
+            and is_name(body[0].value.slice, "inpbuf")
+        ):
+            raise Unsupported("table lookup statement")
+        t = body[0].value.value.id
+        if t not in ("ULAW2PCM", "ALAW2PCM"):
+            raise Unsupported("unknown table %s" % t)
+        return t
+
+    sel = one(
+        (
+            n
+            for n in nodes
+            if isinstance(n, ast.If)
+            and isinstance(n.test, ast.BoolOp)
+            and isinstance(n.test.op, ast.And)
+            and len(n.test.values) == 2
+            and is_name(n.test.values[0], "convert")
+        ),
+        "table selection",
+    )
+    t2 = sel.test.values[1]
+    if not (isinstance(t2, ast.Compare) and is_name(t2.left, "samptype") and len(t2.ops) == 1 and isinstance(t2.ops[0], ast.Eq)):
+        raise Unsupported("table selection test")
+    first_coding = const(t2.comparators[0], str)
+    if first_coding not in CODINGS:
+        raise Unsupported("table selection coding")
+    first_table = table_assign(sel.body)
+    if not (len(sel.orelse) == 1 and isinstance(sel.orelse[0], ast.If) and is_name(sel.orelse[0].test, "convert") and not sel.orelse[0].orelse):
+        raise Unsupported("table selection else branch")
+    other_table = table_assign(sel.orelse[0].body)
     out += [
         "(* ---- copy_samples *)",
         "Definition copy_buf_size : Z := %d." % bs,
         "Definition shorten_magic : bytes := %s.  (* %r *)" % (bl(magic), magic),
         "Definition in_types : list (Z * (Z * bool)) :=  (* itemsize, (bits, signed) *)\n  [%s]."
         % "; ".join("(%d, (%d, %s))" % (k, b, "true" if s else "false") for k, b, s in types),
+        "(* samptype in {...} *)",
+        "Definition law_codings : list coding := [%s]." % "; ".join(CODINGS[x] for x in laws[0]),
+        "(* dtype chosen for these codings when none is requested: (bits, signed) *)",
+        "Definition law_default_type : Z * bool := (%d, %s)." % (law_bits, "true" if law_signed else "false"),
+        "(* convert = sampsize < dtype.itemsize and samptype in {...} *)",
+        "Definition convert_rule (sampsize itemsize : Z) (is_law : bool) : bool := (sampsize <? itemsize) && is_law.",
+        "(* big endian iff sample_byte_format == this *)",
+        "Definition big_endian_tag : bytes := %s.  (* %r *)" % (bl(be_tag), be_tag),
+        "(* table used when converting *)",
+        "Definition convert_table (c : coding) : list Z := if coding_eqb c %s then %s else %s."
+        % (CODINGS[first_coding], first_table, other_table),
         "",
     ]
 
